@@ -40,7 +40,8 @@ Inductive kind :=
 Inductive hkind :=
 | HApply | HBvar | HCi | HCn | HDegree | HLogbase | HMath | HOtherwise | HPiece | HPiecewise
 | HOp (k : kind)    (* returns a callable, does not look at the node *)
-| HVal (c : Z).     (* table entry that is an object, not a class: 0 pi 1 E 2 oo 4 nan 10 true 11 false *)
+| HVal (c : Z)      (* table entry that is an object, not a class: EConst c = 0 pi, 1 E, 2 oo, 4 nan *)
+| HValB (b : bool). (* sympy.true / sympy.false *)
 
 (* values passed between handlers *)
 Inductive tval :=
@@ -50,9 +51,6 @@ Inductive tval :=
 | TPair (a b : tval)        (* <piece>, <otherwise> *)
 | TOpaque                   (* accepted SymPy object the model does not describe (evaluated derivative) *)
 | TJunk.                    (* NotImplemented, returned by SymPy's inequality classes for a non-SymPy operand *)
-
-Definition val_expr (c : Z) : expr :=
-  if c =? 10 then ETrue else if c =? 11 then EFalse else EConst c.
 
 (* ---- tables ----------------------------------------------------------------------------------- *)
 Fixpoint alookup {X} (n : name) (l : list (name * X)) : option X :=
@@ -79,7 +77,7 @@ Definition sympy_table : list (name * hkind) := [
   (N "asec", HOp (KFn1 fn_asec)); (N "acsc", HOp (KFn1 fn_acsc)); (N "acot", HOp (KFn1 fn_acot));
   (N "asinh", HOp (KFn1 fn_asinh)); (N "acosh", HOp (KFn1 fn_acosh)); (N "atanh", HOp (KFn1 fn_atanh));
   (N "asech", HOp (KFn1 fn_asech)); (N "acsch", HOp (KFn1 fn_acsch)); (N "acoth", HOp (KFn1 fn_acoth));
-  (N "pi", HVal 0); (N "E", HVal 1); (N "oo", HVal 2); (N "nan", HVal 4); (N "true", HVal 10); (N "false", HVal 11)
+  (N "pi", HVal 0); (N "E", HVal 1); (N "oo", HVal 2); (N "nan", HVal 4); (N "true", HValB true); (N "false", HValB false)
 ].
 
 (* the methods of the class *)
@@ -191,22 +189,23 @@ Definition signed_number (s : list Z) : option (Z * Z * list Z) :=
 
 (* float(s) for a stripped string; the exact decimal value stands for the nearest double *)
 Definition py_float (s : list Z) : option fval :=
-  let sb := split_sign s in
-  let low := map lower (snd sb) in
-  if name_eqb low s_inf || name_eqb low s_infinity then Some (FInf (fst sb))
-  else if name_eqb low s_nan then Some FNan
-  else match signed_number s with
-       | Some (v, k, []) => Some (FNum (q10 v (- k)))
-       | Some (v, k, c :: rest) =>
-           if (c =? 101) || (c =? 69) then
-             let eb := split_sign rest in
-             match digitpart 0 (snd eb) with
-             | Some (e, _, []) => Some (FNum (q10 v ((if fst eb then - e else e) - k)))
-             | _ => None
-             end
-           else None
-       | None => None
-       end.
+  match signed_number s with
+  | Some (v, k, []) => Some (FNum (q10 v (- k)))
+  | Some (v, k, c :: rest) =>
+      if (c =? 101) || (c =? 69) then
+        let eb := split_sign rest in
+        match digitpart 0 (snd eb) with
+        | Some (e, _, []) => Some (FNum (q10 v ((if fst eb then - e else e) - k)))
+        | _ => None
+        end
+      else None
+  | None =>
+      let sb := split_sign s in
+      let low := map lower (snd sb) in
+      if name_eqb low s_inf || name_eqb low s_infinity then Some (FInf (fst sb))
+      else if name_eqb low s_nan then Some FNan
+      else None
+  end.
 
 Definition fval_expr (f : fval) : expr :=
   match f with
@@ -423,12 +422,30 @@ Definition apply_handler (vs : list tval) : tres tval :=
 Definition cond_ok (c : expr) : bool :=
   match c with ERel _ _ _ | EBool _ _ | ETrue | EFalse | EVar _ => true | _ => false end.
 
+(* ExprCondPair folds a Piecewise that occurs inside a condition into an ITE; SymPy can do that only when the inner
+   Piecewise covers every case (ends in a True condition), otherwise it raises NotImplementedError *)
+Definition last_true (l : list (expr * expr)) : bool :=
+  match rev l with (_, ETrue) :: _ => true | _ => false end.
+
+Fixpoint has_partial_pw (e : expr) : bool :=
+  let fix any (l : list expr) : bool :=
+    match l with [] => false | x :: r => has_partial_pw x || any r end in
+  let fix anyp (l : list (expr * expr)) : bool :=
+    match l with [] => false | (x, c) :: r => has_partial_pw x || has_partial_pw c || anyp r end in
+  match e with
+  | EAdd l | EMul l | EFn _ l | EBool _ l => any l
+  | EPow a b | ERel _ a b => has_partial_pw a || has_partial_pw b
+  | EDeriv y t _ => has_partial_pw y || has_partial_pw t
+  | EPw l => negb (last_true l) || anyp l
+  | _ => false
+  end.
+
 (* Piecewise.__new__ stops looking at its arguments after the first pair whose condition is True *)
 Fixpoint pieces (vs : list tval) : option (list (expr * expr)) :=
   match vs with
   | [] => Some []
   | TPair (TE e) (TE c) :: r =>
-      if cond_ok c then
+      if cond_ok c && negb (has_partial_pw c) then
         match c with
         | ETrue => Some [(e, c)]
         | _ => match pieces r with Some ps => Some ((e, c) :: ps) | None => None end
@@ -459,36 +476,32 @@ Definition handle (h : hkind) (ty : Z) (text : list Z) (ch : list mtree) (sub : 
   | HCi => ci_handler text
   | HCn => cn_handler ty text ch
   | HOp k => TOk (TOp k)
-  | HVal c => TOk (TE (val_expr c))
+  | HVal c => TOk (TE (EConst c))
+  | HValB b => TOk (TE (if b then ETrue else EFalse))
   | _ => match sub with TErr e => TErr e | TOk vs => container h vs end
   end.
 
 (* transpile: every child must have a handler; the handlers of container elements descend first *)
+Definition trs_of (rec : mtree -> tres tval) : list mtree -> tres (list tval) :=
+  fix go (l : list mtree) : tres (list tval) :=
+    match l with
+    | [] => TOk []
+    | x :: r => match rec x with
+                | TOk v => match go r with TOk vs => TOk (v :: vs) | TErr e => TErr e end
+                | TErr e => TErr e
+                end
+    end.
+
 Fixpoint tr (t : mtree) : tres tval :=
   match t with
   | MElem tag ty text tail ch =>
-      let fix trs (l : list mtree) : tres (list tval) :=
-        match l with
-        | [] => TOk []
-        | x :: r => match tr x with
-                    | TOk v => match trs r with TOk vs => TOk (v :: vs) | TErr e => TErr e end
-                    | TErr e => TErr e
-                    end
-        end in
       match tag_kind tag with
       | None => TErr EValue
-      | Some h => handle h ty text ch (trs ch)
+      | Some h => handle h ty text ch (trs_of tr ch)
       end
   end.
 
-Fixpoint trs (l : list mtree) : tres (list tval) :=
-  match l with
-  | [] => TOk []
-  | x :: r => match tr x with
-              | TOk v => match trs r with TOk vs => TOk (v :: vs) | TErr e => TErr e end
-              | TErr e => TErr e
-              end
-  end.
+Definition trs : list mtree -> tres (list tval) := trs_of tr.
 
 (* ---- bridge ----------------------------------------------------------------------------------- *)
 Fixpoint mtree_of_sexp (x : sexp) : mtree :=
